@@ -80,15 +80,17 @@ MCSetup ==
 
 \* (Next of Fixpoint.tla, spelled out so that TLC's coverage reports every action separately;
 \*  constant quantifier bounds for the same reason; all actions of Fixpoint are disabled in phase "pick")
-MCNext == \/ MCSetup
+MCCore == \/ MCSetup
           \/ Start
           \/ \E v \in 1..NN : PopVisit(v)
           \/ \E v \in 1..NN : PopDefer(v)
           \/ \E e \in 1..MaxE, x \in 1..4 : UpdateEdgeWith(e, x)   \* = \E e \in Edges(cfg) : UpdateEdge(e)
           \/ FinishNode
           \/ Finish
+MCNext == MCCore \/ \E v \in 1..NN : Requeue(v)
 MCSpec == MCInit /\ [][MCNext]_vars
-FairSpec == MCSpec /\ WF_vars(MCNext)
+\* liveness: the solver's own steps under weak fairness, no needless re-queues (they could go on forever)
+FairSpec == MCInit /\ [][MCCore]_vars /\ WF_vars(MCCore)
 
 Chosen == phase # "pick"
 \* the explored problems are inside the class of C07, and the Kleene LFP is the least solution
